@@ -12,7 +12,7 @@ Template directives (lines starting with //@@):
   //@@ property <ID> [<ID> ...]
   //@@ min-verified <n>                      vacuity floor for Verus' "verified" count
   //@@ fn <relpath> | <ctx-regex or -> | <name> [| key=value ...]
-        keys: nth=<k>  ret=<ident>  rename=<new>  canary=1  vis=keep  nobody=1
+        keys: nth=<k>  ret=<ident>  rename=<new>  canary=1  vis=keep  sigonly=1 (real signature, assumed contract, no body)
       //@@ rw <RuleId> <delim>regex<delim>replacement<delim> [min=<n>]
       //@@ spec
           requires ...,
@@ -254,6 +254,72 @@ def desugar_enumerate(text: str, rwlog) -> str:
     if n:
         rwlog.append(dict(rule='R5d', what='`for (i, x) in s.iter().enumerate() { .. }` desugared to the indexed while loop', applied=n))
     return text
+
+def nest_let_chains(text: str, rwlog: list, name: str) -> str:
+    """R17 (always on): `if let P = E && C && let Q = F { B }` (a let chain, Rust 2024; Verus has no let expressions) without an
+    `else` is the nesting `if let P = E { if C { if let Q = F { B } } }` — same evaluation order, same short-circuit, same scope of
+    the bindings. With an `else` the nesting would duplicate the branch: refused (undecided)."""
+    n = 0
+    pos = 0
+    while True:
+        m = mask(text)
+        mo = None
+        for c in re.finditer(r'\bif\b', m):
+            if c.start() < pos:
+                continue
+            # condition: up to the first `{` outside brackets
+            i = c.end()
+            depth = 0
+            while i < len(m):
+                ch = m[i]
+                if ch in '([':
+                    depth += 1
+                elif ch in ')]':
+                    depth -= 1
+                elif ch == '{' and depth == 0:
+                    break
+                i += 1
+            if i >= len(m):
+                break
+            cond = m[c.end():i]
+            if not re.search(r'\blet\b', cond):
+                continue
+            # split at top-level &&
+            parts, d, st, j = [], 0, 0, 0
+            while j < len(cond):
+                ch = cond[j]
+                if ch in '([{':
+                    d += 1
+                elif ch in ')]}':
+                    d -= 1
+                elif d == 0 and cond.startswith('&&', j):
+                    parts.append((st, j)); st = j + 2; j += 1
+                j += 1
+            parts.append((st, len(cond)))
+            if len(parts) < 2:
+                continue
+            mo = (c, i, parts)
+            break
+        if mo is None:
+            break
+        c, ob, parts = mo
+        cb = match_brace(m, ob)
+        if re.match(r'\s*else\b', m[cb + 1:]):
+            raise ExtractError(f'{name}: a let chain with an `else` branch — R17 does not apply (unsupported construct)')
+        if re.search(r'\belse\s*$', m[:c.start()]):
+            raise ExtractError(f'{name}: a let chain in an `else if` — R17 does not apply (unsupported construct)')
+        base = c.end()
+        conds = [text[base + a:base + b].strip() for a, b in parts]
+        new = ''.join(f'if {cd} {{ ' for cd in conds[:-1]) + f'if {conds[-1]} ' + text[ob:cb + 1] + ' }' * (len(conds) - 1)
+        # keep the line count: the condition's newlines go after the rewritten statement
+        lost = text[c.start():cb + 1].count('\n') - new.count('\n')
+        text = text[:c.start()] + new + '\n' * max(lost, 0) + text[cb + 1:]
+        pos = c.start() + 2
+        n += 1
+    if n:
+        rwlog.append(dict(rule='R17', what='let chain `if A && let P = E { B }` (no else) nested as `if A { if let P = E { B } }`', applied=n))
+    return text
+
 
 def match_brace(m: str, open_idx: int) -> int:
     """index of the brace closing the one at open_idx (masked text)."""
@@ -912,6 +978,7 @@ def _emit_fn(g, meta, tmpl, rel, src, m, ctx, name, kv, subs):
         cut = text[st:cb + 1]
         text = text[:st] + '\n' * cut.count('\n') + text[cb + 1:]
         rwlog.append(dict(rule='R13', what=f'nested helper fn `{nm}` removed from the body (its contract is supplied by the unit): {len(cut)} characters, exactly its item', applied=1))
+    text = nest_let_chains(text, rwlog, name)
     if kv.get('enumerate') == '1':
         text = desugar_enumerate(text, rwlog)
     if kv.get('whilelet') == '1':
@@ -1005,6 +1072,12 @@ def _emit_fn(g, meta, tmpl, rel, src, m, ctx, name, kv, subs):
     canary = kv.get('canary') == '1'
     g.emit(f'// ==== SOURCE {rel}:{line0}-{line_of(src, bc)} fn {name} sha256={sha[:16]} rewrites={[r["rule"] for r in rwlog]}',
            'tmpl', tmpl, subs[0][3] if subs else 0, fn=fname)
+    if kv.get('sigonly') == '1':
+        # R18: only the REAL signature is taken (so the assumed contract follows the real parameter list); the body stays outside the
+        # unit and the function is `external_body` — an assumption, listed as such
+        body = ' unimplemented!() '
+        rwlog.append(dict(rule='R18', what='signature only: body left out, the contract written on it is ASSUMED (external_body)', applied=1))
+        g.emit('#[verifier::external_body]', 'tmpl', tmpl, subs[0][3] if subs else 0, fn=fname)
     g.emit(sig.rstrip(), 'src', rel, line0, fn=fname)
     # spec
     loops_spec = {}
@@ -1135,7 +1208,7 @@ def _emit_fn(g, meta, tmpl, rel, src, m, ctx, name, kv, subs):
     _emit_src_seg(g, seg, rel, cur_line, fname, cont)
     g.emit('}', 'tmpl', tmpl, 0, fn=fname)
     rec = dict(fn=fname, source=f'{rel}:{line0}-{line_of(src, bc)}', qual=qual, sha256=sha, rewrites=rwlog,
-               loops=len(loops), canary=canary)
+               loops=len(loops), canary=canary, assumed=(kv.get('sigonly') == '1'))
     (meta['canaries'] if canary else meta['functions']).append(rec)
     for r in rwlog:
         meta['rewrites'].append(dict(fn=fname, **r))
